@@ -658,17 +658,17 @@ type bind struct {
 }
 
 type mctx struct {
-	g      *mgen
-	t      *translator
-	tg     *MTarget
-	fi     *funcInfo
-	info   *types.Info
-	muts   []mvar // objects returned after the results
-	mem    bool   // explicit backing-array parameter `mem`
-	resTy  []gty
-	binds  []bind
-	tmp    int
-	inLoop []string // loop-state tuple while translating a loop body (nil outside)
+	g       *mgen
+	t       *translator
+	tg      *MTarget
+	fi      *funcInfo
+	info    *types.Info
+	muts    []mvar // objects returned after the results
+	mem     bool   // explicit backing-array parameter `mem`
+	resTy   []gty
+	binds   []bind
+	tmp     int
+	inLoop  []string      // loop-state tuple while translating a loop body (nil outside)
 	loopEnd func() string // what the end of the innermost loop body yields (target of `continue`)
 	// loopRet: the loop being translated contains `return` (go_for_ret): the body yields
 	// inl state | inr result
